@@ -306,3 +306,35 @@ Proof.
     + cbn [nth_error] in H. destruct (IH _ _ _ _ H) as [A [B C]]. split; [exact A|]. split; [exact B|].
       rewrite C. f_equal. f_equal. lia.
 Qed.
+
+(* play(func / buffer, target, outbus, fade, add_action, args): one '/d_recv' whose completion message is the creation
+   command of the new Synth object, with the object's own id *)
+Lemma create_play : forall V s nid def nb ob args tg act a r,
+  pv_maps_ok s ob = true -> pv_maps_ok s args = true -> target_ok s tg = true ->
+  play_elems s args = Some r -> action_number act = Some a ->
+  obj_step V s (OPlay nid def nb ob args tg act) =
+  (add_node s (Some (mkNode (PInt nid) NSynth)),
+   [SMsg [PStr "/d_recv"; PBytes nb;
+          PList (PStr "/s_new" :: PStr def :: PInt nid :: PInt a :: target_id s tg ::
+                 oal (v_dict_brackets V) s (PList (PStr "_iout" :: ob :: PStr "out" :: ob :: r)))]], None).
+Proof.
+  intros V s nid def nb ob args tg act a r Ho Hm Ht Hr Ha. unfold obj_step, maps_ok. cbn [op_args forallb]. rewrite Ho, Hm. cbn [andb].
+  unfold obj_step_core. rewrite Ht, Hr, Ha. reflexivity.
+Qed.
+
+(* controls given as a dict are spliced as key, value, key, value ... (each converted), never as the keys alone *)
+Lemma play_dict_pairs : forall s ps,
+  play_elems s (PDict ps) = Some (flat_map (fun kv => [aci s (fst kv); aci s (snd kv)]) ps).
+Proof.
+  intros s ps. unfold play_elems. cbn [aci]. f_equal.
+  induction ps as [|[k x] t IH]; [reflexivity|]. cbn [flat_map fst snd app]. rewrite <- IH. reflexivity.
+Qed.
+Lemma play_dict_length : forall s ps r, play_elems s (PDict ps) = Some r -> List.length r = (2 * List.length ps)%nat.
+Proof.
+  intros s ps r H. rewrite play_dict_pairs in H. inversion H; subst. clear H.
+  induction ps as [|kv t IH]; [reflexivity|]. cbn [flat_map app List.length]. rewrite IH. lia.
+Qed.
+Lemma play_list_items : forall s l, play_elems s (PList l) = Some (map (aci s) l) /\ play_elems s (PTuple l) = Some (map (aci s) l).
+Proof.
+  intros s l. unfold play_elems. cbn [aci]. split; f_equal; induction l as [|x t IH]; try reflexivity; cbn [map]; rewrite <- IH; reflexivity.
+Qed.
